@@ -55,7 +55,11 @@ func TestCheck(t *testing.T) {
 		"representative alteration (nibble flips, byte/char append/prepend/drop, +-1, zero, clear, toggle, delete member, swap/delete/duplicate/empty array elements, swap to every other supported version string; long byte strings additionally get flips at the first/last byte of every 32-byte chunk, " +
 		"at first/second/r-s-boundary/v byte of every 65-byte entry, at content-derived positions, and whole-entry swap/drop/duplicate/zero). Besides the accept/reject oracle, " +
 		"same-length and whole-entry alterations of hashed members must change at least one recomputed hash (SetDefinitionHashes/SetLockHash). " +
-		"W3 (last block): decode→encode→decode (compact, indented, compact again) of the golden files, the generated files, the create-cluster locks of W1 and hand-assembled valid files " +
+		"W2-crafted (last block): per version x (t,n) shape (n>=t+2: 4/6 5/7 3/5 2/4 3/6 2/5 ..., and n=t+1), public shares of one or all validators are moved onto another polynomial " +
+		"with the same constant term, Q(x)=P(x)+c*x*prod_{s in S}(x-s), for ~15 choices of kept set S / replaced set R (trailing shares agreeing on window overlaps, single shares, all shares, random), " +
+		"(a) only replaced in the file and (b) with lock hash recomputed and aggregate + node signatures re-signed by the crafted key shares; a lock that passes full verification must have every " +
+		"threshold-size subset of public shares (all for n<=7, 40 sampled above) reconstruct the validator key. " +
+		"W3 (block before that): decode→encode→decode (compact, indented, compact again) of the golden files, the generated files, the create-cluster locks of W1 and hand-assembled valid files " +
 		"with unusual spellings of free-text members and address letter case, per version. " +
 		"non-trivial: W1 = the CLI ran and all checks were evaluated, W2 = the base verified and alterations were judged, W3 = files verified before re-encoding; " +
 		"distinct = hash of the configuration (W1), of base shape+document+shard (W2), of version (W3)")
@@ -69,6 +73,7 @@ func TestCheck(t *testing.T) {
 
 	nCLI := r.N(12, 150)
 	nDefFile := len(defFileVersions) * len(defFileOrders) * r.N(1, 4)
+	nCrafted := len(allVersions) * r.N(2, 12)
 	variants := r.N(1, 8)
 	nVer := len(allVersions)
 	nTamper := variants * nVer * 2 * tamperShards
@@ -87,8 +92,13 @@ func TestCheck(t *testing.T) {
 	r.Require("hash_sensitivity_checked", int64(variants*nVer*100))
 	r.Require("roundtrips", int64(nRound*30))
 
-	r.Cases(nCLI+nDefFile+nTamper+nRound, 0, func(c *kit.Case) {
+	r.Require("crafted_locks_judged", int64(nCrafted*10))
+	r.Require("crafted_rehashed-and-resigned_signatures", int64(nCrafted*3))
+
+	r.Cases(nCLI+nDefFile+nTamper+nRound+nCrafted, 0, func(c *kit.Case) {
 		switch i := c.Idx - nDefFile; {
+		case c.Idx >= nCLI+nDefFile+nTamper+nRound:
+			runCraftedSharesCase(c, c.Idx-(nCLI+nDefFile+nTamper+nRound))
 		case c.Idx < nCLI:
 			runCLICase(c, c.Idx)
 		case c.Idx < nCLI+nDefFile:
